@@ -86,10 +86,10 @@ func (c *Ctx) add(rule, key, pos string, o Outcome, detail string) {
 	c.obls = append(c.obls, Obl{Rule: rule, Key: key, Pos: pos, Outcome: o, Detail: detail, Config: cfg})
 }
 
-func (c *Ctx) Ok(rule, key, pos, detail string)   { c.add(rule, key, pos, Discharged, detail) }
-func (c *Ctx) Bad(rule, key, pos, detail string)  { c.add(rule, key, pos, Violation, detail) }
-func (c *Ctx) Und(rule, key, pos, detail string)  { c.add(rule, key, pos, Undecided, detail) }
-func (c *Ctx) Note(format string, a ...any)       { c.notes = append(c.notes, fmt.Sprintf(format, a...)) }
+func (c *Ctx) Ok(rule, key, pos, detail string)  { c.add(rule, key, pos, Discharged, detail) }
+func (c *Ctx) Bad(rule, key, pos, detail string) { c.add(rule, key, pos, Violation, detail) }
+func (c *Ctx) Und(rule, key, pos, detail string) { c.add(rule, key, pos, Undecided, detail) }
+func (c *Ctx) Note(format string, a ...any)      { c.notes = append(c.notes, fmt.Sprintf(format, a...)) }
 func (c *Ctx) Check(rule, key, pos string, ok bool, okDetail, badDetail string) {
 	if ok {
 		c.Ok(rule, key, pos, okDetail)
@@ -237,6 +237,9 @@ func (c *Ctx) finish() int {
 
 	nViol, nKnown, nAud, nDis, nInfo := 0, 0, 0, 0, 0
 	evDir := filepath.Join(vd, "evidence")
+	if d := os.Getenv("UGOLINT_EVDIR"); d != "" {
+		evDir = d // trial runs against scratch trees must not overwrite the evidence
+	}
 	os.MkdirAll(filepath.Join(evDir, "replay"), 0o755)
 	// remove stale replay files of this property
 	old, _ := filepath.Glob(filepath.Join(evDir, "replay", c.Prop+"-*.json"))
